@@ -10,7 +10,7 @@
      idle   worker numbers in WorkerPool._idle, oldest first      act, cl   _active, _closed
      ws     per worker created so far: "held" | "idle" | "closed"       al   per worker: process alive
      held   per borrower: the worker it holds (0 = none)
-   Registers: tid -> furthest event matched; 100000+tid -> clauses violated in a matched state.                *)
+   Registers: 2*tid -> furthest event matched; 2*tid+1 -> clauses violated in a matched state.                *)
 EXTENDS Pool, Json, IOUtils, TLCExt
 Traces == JsonDeserialize(IOEnv.TRACE_FILE)
 VARIABLES tid, l
@@ -51,9 +51,9 @@ Bad == {c \in {"ExclusiveOwnership", "IdleBound", "HandoutAliveClean"} :
           \/ (c = "ExclusiveOwnership" /\ ~ExclusiveOwnership)
           \/ (c = "IdleBound" /\ ~IdleBound)
           \/ (c = "HandoutAliveClean" /\ ~HandoutAliveClean)}
-Track == /\ TLCSet(tid, IF TLCGet(tid) < l THEN l ELSE TLCGet(tid))
-         /\ TLCSet(100000 + tid, TLCGet(100000 + tid) \cup Bad)
-ASSUME \A i \in 1..Len(Traces) : TLCSet(i, 0) /\ TLCSet(100000 + i, {})
+Track == /\ TLCSet(2 * tid, IF TLCGet(2 * tid) < l THEN l ELSE TLCGet(2 * tid))
+         /\ TLCSet(2 * tid + 1, TLCGet(2 * tid + 1) \cup Bad)
+ASSUME \A i \in 1..Len(Traces) : TLCSet(2 * i, 0) /\ TLCSet(2 * i + 1, {})
 Verdicts == \A i \in 1..Len(Traces) :
-   PrintT("@@J@@" \o ToJson([tid |-> i, matched |-> TLCGet(i) - 1, len |-> Len(Traces[i].ev), bad |-> TLCGet(100000 + i)]))
+   PrintT("@@J@@" \o ToJson([tid |-> i, matched |-> TLCGet(2 * i) - 1, len |-> Len(Traces[i].ev), bad |-> TLCGet(2 * i + 1)]))
 =========================================================================================
